@@ -1,17 +1,20 @@
 #!/bin/bash
-# usage: refrun.sh <dir with R*.patch.diff>  — behaviour-preserving refactorings: every check must stay silent
+# usage: refrun.sh [patch ...]   (default: /verif/refactors/*.patch)
+# behaviour-preserving refactorings: every check must stay silent on each of them
 cd /verif
-IDS=$(python3 -c "import json;print(' '.join(c['property_id'] for c in json.load(open('MANIFEST.json'))['checks']))")
-WT=/var/tmp/seedrun/wt
-for p in $1/R*.patch.diff; do
+IDS=${IDS:-$(python3 -c "import json;print(' '.join(c['property_id'] for c in json.load(open('MANIFEST.json'))['checks']))")}
+WT=/var/tmp/refrun/wt
+if [ ! -d $WT ]; then mkdir -p /var/tmp/refrun; git -C /repo worktree add --detach $WT HEAD -q; fi
+PATCHES=${@:-$(ls /verif/refactors/*.patch)}
+for p in $PATCHES; do
   cd $WT && git checkout -q -- . && git clean -fdq && git checkout -q --detach $(git -C /repo rev-parse HEAD)
   git apply $p || { echo "$p: PATCH-FAIL"; continue; }
   cd /verif
   fired=""
   for id in $IDS; do
-    out=$(BW_EVIDENCE_DIR=/var/tmp/seedrun/evidence BW_REPO=$WT ./check $id 2>&1); rc=$?
-    if [ $rc -ne 0 ]; then fired="$fired $id:$(echo "$out" | sed -n 's/^  rule=\(\S*\) key=\(\S*\).*/\2/p' | head -3 | tr '\n' ',')"; fi
+    out=$(BW_EVIDENCE_DIR=/var/tmp/refrun/evidence BW_REPO=$WT ./check $id 2>&1); rc=$?
+    if [ $rc -ne 0 ]; then fired="$fired $id:$(echo "$out" | sed -n 's/^  rule=\(\S*\) key=\(\S*\).*/\2/p' | head -${NKEYS:-3} | tr '\n' ',')"; fi
   done
-  echo "$(basename $(dirname $p))/$(basename $p .patch.diff): ${fired:-SILENT}"
+  echo "$(basename $p .patch): ${fired:-SILENT}"
 done
 cd $WT && git checkout -q -- . && git clean -fdq
